@@ -136,6 +136,22 @@ theorem arith_name_nonempty (x : AExpr) (n : Bytes) (h : arithLvalue x = .ok (so
 theorem assoc_index_safe (idx : AExpr) : assocIndex idx ≠ .panic := by
   cases idx <;> (intro h; cases h)
 
+/-! ## namerefs -/
+
+/-- `Variable.Resolve` never returns a variable whose `Kind` is still `NameRef` — for every
+    environment, including nameref cycles, self references, dangling references and chains of 100
+    or more.  This is the invariant that makes the `default:` branches of the `Kind` switches after a
+    `Resolve` unreachable. -/
+theorem resolve_never_nameref (env : Bytes → Var) (v : Var) : (resolve env v).2.kind ≠ .nameRef :=
+  resolveLoop_not_nameref env _ _ _
+
+/-- `panic("unexpected conversion of kind %d")` in `Runner.assignVal` is unreachable for a resolved
+    variable of any of the five kinds a stored variable can have. -/
+theorem append_kind_safe (env : Bytes → Var) (v : Var) (h : (resolve env v).2.kind ≠ .keepValue) :
+    appendKind (resolve env v).2.kind ≠ .panic := by
+  have hn := resolve_never_nameref env v
+  cases hk : (resolve env v).2.kind <;> simp_all [appendKind]
+
 /-! ## panic-site table -/
 
 /-- Every explicit `panic(` call, every unchecked type assertion `x.(T)` and every shift `x << y`,
@@ -160,6 +176,8 @@ example : grun ⟨0, 0⟩ [⟨1, [97, 98, 99], [[45, 97, 98, 99]]⟩, ⟨1, [97,
 example : arithLvalue (.word [.nakedIndex [97]]) = .ok none := by decide
 example : arithLvalue .unary = .ok none := by decide
 example : assocIndex .binary = .ok false := by decide
+-- a two-cycle of namerefs resolves to the zero variable
+example : (resolve (fun n => if n = [97] then ⟨.nameRef, [98]⟩ else ⟨.nameRef, [97]⟩) ⟨.nameRef, [98]⟩).2.kind = .unknown := by decide
 example : fpObeys (FP.init [[45, 97, 98], [120]]) false [.more, .flag, .more, .flag, .more, .args] = true := by decide
 example : (fpRun (FP.init []) [.flag]).2 = true := by decide
 example : (params [false, false, false, false, false, false, false] [[45, 111]]) =
